@@ -1,0 +1,19 @@
+//go:build verif
+
+package selfmon
+
+import (
+	"context"
+
+	"github.com/projecteru2/core/cluster"
+	"github.com/projecteru2/core/store"
+	"github.com/projecteru2/core/types"
+)
+
+// NewWatcherForVerif builds a NodeStatusWatcher on a caller-supplied store (verification harness only).
+func NewWatcherForVerif(id int64, config types.Config, cluster cluster.Cluster, stor store.Store) *NodeStatusWatcher {
+	return &NodeStatusWatcher{ID: id, config: config, cluster: cluster, store: stor}
+}
+
+// RunForVerif runs the watcher loop until ctx is done.
+func (n *NodeStatusWatcher) RunForVerif(ctx context.Context) { n.run(ctx) }
